@@ -224,6 +224,7 @@ def surgery(ctx: Ctx):
                 f"a scatter_ rewrites the list using an argsort taken from an intermediate version that was modified afterwards (stale predecessor table): {vg.show(stale[0][1], 3)}"),
                construct=f"{fi.qualname}:stale-argsort")
         # absorbing walks
+        n_walks = 0
         for node in ast.walk(fi.node):
             if not isinstance(node, ast.For):
                 continue
@@ -233,8 +234,13 @@ def surgery(ctx: Ctx):
                         and ast.unparse(b.value.func) == "torch.where" and len(b.value.args) == 3:
                     tgt = b.targets[0].id
                     cond, a, c = b.value.args
-                    if isinstance(c, ast.Name) and c.id == tgt and isinstance(cond, ast.Compare) and isinstance(cond.left, ast.Name) and cond.left.id == tgt and isinstance(cond.ops[0], ast.NotEq):
-                        absorbing = tgt
+                    if isinstance(cond, ast.Compare) and len(cond.ops) == 1 and isinstance(cond.ops[0], (ast.NotEq, ast.Eq)):
+                        sides = [cond.left, cond.comparators[0]]
+                        on_tgt = any(isinstance(x, ast.Name) and x.id == tgt for x in sides)
+                        # where(cur != stop, next, cur)  or  where(cur == stop, cur, next)
+                        keep = c if isinstance(cond.ops[0], ast.NotEq) else a
+                        if on_tgt and isinstance(keep, ast.Name) and keep.id == tgt:
+                            absorbing = tgt
             if absorbing is None:
                 continue
             itr = node.iter
@@ -249,7 +255,10 @@ def surgery(ctx: Ctx):
                 bt = ast.unparse(basee)
                 ok = bt.endswith("num_loc") and c >= -1
                 why = f"absorbing walk on `{absorbing}` runs range({ast.unparse(e)}) iterations; reaching any node of an n-cycle needs up to n - 1 steps"
-            ctx.ob("C09.g", f"{cname}._local_operator:walk-bound@{node.lineno - fi.node.lineno}", ok, fi.loc, why, construct=f"{fi.qualname}:walk-bound:{absorbing}")
+            n_walks += 1
+            ctx.ob("C09.g", f"{cname}._local_operator:walk-bound@{node.lineno - fi.node.lineno}", ok, fi.loc, why, construct=f"{fi.qualname}:walk-bound:{n_walks}")
+        if cname == "TSPkoptEnv" and n_walks < 1:
+            raise AnalysisError(f"{cname}._local_operator: the absorbing 2-opt reversal walk was not recognised")
 
 
 def run_thorough(ctx: Ctx):
